@@ -32,7 +32,8 @@ def pathAppend {α : Type} (ops : List α) (maxlen : Option Nat) (x : α) : List
     (only reachable with an empty path and `maxlen = 0`).
     The code's three `if` blocks run in this order, later ones overriding earlier ones:
     (1) append refused → stop, no success; (2) last frame `< left` / `> right` → success, stop;
-    (3) `length == maxlen` → NO success, stop  (this overrides a crossing detected in (2)). -/
+    (3) `length == maxlen and not success` → no success, stop (since the repair f955162 in /repo a
+        crossing detected in (2) on that same frame is no longer overridden). -/
 def addToPath (ops : List Int) (maxlen : Option Nat) (x : Int) (left right : Int) :
     Option (List Int × AddResult) :=
   let (ops', add) := pathAppend ops maxlen x
@@ -46,7 +47,8 @@ def addToPath (ops : List Int) (maxlen : Option Nat) (x : Int) (left right : Int
       else if last > right then { r1 with status := .crossedRight, success := true, stop := true }
       else r1
     let r3 : AddResult :=
-      if maxlen = some ops'.length then { r2 with status := .maxLen, success := false, stop := true }
+      if maxlen = some ops'.length ∧ r2.success = false then
+        { r2 with status := .maxLen, success := false, stop := true }
       else r2
     some (ops', r3)
 
